@@ -102,14 +102,9 @@ def run(ctx, prop, extra=None):
                                    "rule %s on %r: %s" % (json.dumps(case["yaml"])[:200], case["src"][:60], reason[1])):
                 bad.add(f["index"])
     if prop == "C04":
-        ext = [d for d in res.get("drift", []) if any(str(w).startswith("ext:") for w in (d.get("what") or []))]
-        if ext:
-            case = vlib.nth_line(recs_path, ext[0]["index"])
-            print("EXTENSION-FINDING secondary labels (%d rule programs, e.g. %s on %r): a relational rule whose sub-rule is itself "
-                  "a bare relational rule (or `matches` of one) records the innermost node again instead of the node it selected"
-                  % (len(ext), json.dumps(case["yaml"])[:160], case["src"][:40]), flush=True)
-        ctx.cov["secondary_labels"] = {"programs_where_labels_differ_from_the_selected_nodes": len(ext),
-                                       "model": "Labels.tla LabelsOf(I) = recorded labels on every match (else DRIFT 'labels')"}
+        lab = [d for d in res.get("drift", []) if any(str(w).startswith("labels") for w in (d.get("what") or []))]
+        ctx.cov["secondary_labels"] = {"programs_whose_labels_differ_from_the_selected_nodes": len(lab),
+                                       "model": "Labels.tla LabelsOf(P) = recorded labels on every match (else DRIFT 'labels...')"}
     if prop == "C01":
         for f in res.get("set_fails", []):
             case = vlib.nth_line(recs_path + ".sets", f["index"])
